@@ -251,6 +251,37 @@ def run(chk):
     chk.ob("return/async generator: last form is evaluated but not returned",
            isinstance(fd, ast.AsyncFunctionDef) and not any(isinstance(s, ast.Return) for s in fd.body) and isinstance(fd.body[-1], ast.Expr),
            "structural", "proved", detail=sx.show(fd))
+    # ... wherever the yield sits in the function's own Python scope (a let, a branch, a loop body, an argument, an assignment value),
+    # and for defn and fn alike; a yield inside a nested function makes *that* one the generator, not the enclosing coroutine
+    Y = lambda: E(S("yield"), Tok("y", "E"))
+    places = {
+        "directly in the body": lambda: Y(), "in a let body": lambda: E(S("let"), List([S("ul"), Tok("i", "E")]), Y()),
+        "in nested lets": lambda: E(S("let"), List([S("ul"), Tok("i", "E")]), E(S("let"), List([S("um"), Tok("j", "E")]), Y())),
+        "in a let binding value": lambda: E(S("let"), List([S("ul"), Y()]), S("ul")),
+        "in an if branch": lambda: E(S("if"), Tok("c", "E"), Y(), Tok("e", "E")), "in a when body": lambda: E(S("when"), Tok("c", "E"), Y()),
+        "in a do": lambda: E(S("do"), Tok("d", "SE"), Y()), "in a try body": lambda: E(S("try"), Y(), E(S("finally"), Tok("f", "E"))),
+        "in an except handler": lambda: E(S("try"), Tok("t", "E"), E(S("except"), List([]), Y())),
+        "in a with body": lambda: E(S("with"), List([S("uw"), Tok("m", "E")]), Y()), "in a for body": lambda: E(S("for"), List([S("ui"), Tok("xs", "E")]), Y()),
+        "in a while body": lambda: E(S("while"), Tok("c", "E"), Y()), "as a call argument": lambda: E(S("ug"), Y()),
+        "as an assignment value": lambda: E(S("setv"), S("uv"), Y()), "in a match body": lambda: E(S("match"), Tok("s", "E"), Integer(1), Y()),
+        "as yield :from": lambda: E(S("for"), List([S("ui"), Tok("xs", "E")]), E(S("yield"), S("ui"))),
+        "in a let inside a for body": lambda: E(S("for"), List([S("ui"), Tok("xs", "E")]), E(S("let"), List([S("ul"), S("ui")]), Y())),
+    }
+    for head in ("defn", "fn"):
+        for pname, mk in places.items():
+            pre = [S("uf")] if head == "defn" else []
+            try:
+                fd = fdef(E(S(head), Keyword("async"), *pre, List([]), mk(), Tok("b", "E")))
+                okk = isinstance(fd, ast.AsyncFunctionDef) and not any(isinstance(n, ast.Return) and n.value is not None for n in ast.walk(fd))
+                det = sx.show(fd)
+            except Exception as e:  # noqa: BLE001
+                okk, det = False, f"{type(e).__name__}: {e}"
+            chk.case(("async-generator", head, pname))
+            chk.ob(f"return/async generator ({head}), yield {pname}: the last form is not returned", okk, "structural", "proved", detail=det)
+    inner = E(S("fn"), List([]), Y())
+    fd = fdef(E(S("defn"), Keyword("async"), S("uf"), List([]), E(S("setv"), S("ug"), inner), Tok("b", "E")))
+    chk.ob("return/a yield inside a nested function does not make the enclosing coroutine a generator: it returns its last form",
+           isinstance(fd.body[-1], ast.Return), "structural", "proved", detail=sx.show(fd))
     fd = fdef(E(S("defn"), S("uf"), List([]), E(S("yield"), Tok("y", "E")), Tok("b", "E")))
     chk.ob("return/sync generator still returns its last form", isinstance(fd.body[-1], ast.Return), "structural", "proved")
     fd = fdef(E(S("defn"), Keyword("async"), S("uf"), List([]), Tok("a", "E"), Tok("b", "E")))
